@@ -1,27 +1,27 @@
-(* MuWaitModel: executable model of internal/mu.c + internal/mu_wait.c with conditional
-   critical sections: lock, rlock, trylock, rtrylock, unlock, runlock, unlock_without_wakeup,
-   nsync_mu_wait_with_deadline (mu_try_acquire_after_timeout_or_cancel), lock_slow, the FULL
-   unlock_slow (conversion to a writer lock, release / re-take of the spinlock around condition
-   evaluation, multi-round new_waiters loop, skip_past_same_condition), nsync_maybe_merge_conditions_,
-   nsync_remove_from_mu_queue_ (remove_count, same_condition ring repair), nsync_spin_test_and_set_.
+(* F14 witness -- NOT part of the build (kept outside coq/).
+   The model of internal/mu.c + internal/mu_wait.c as it stands after the F13 repair (/repo 5890963) but BEFORE /repo commit
+   b3597cd ("fix: a timed-out nsync_mu_wait caller is not stopped by MU_LONG_WAIT"): Model/MuWaitModel.v verbatim, except
+   that the guard of the spin loop of mu_try_acquire_after_timeout_or_cancel is the OLD one (old_mt_cas1_guard below, copied
+   from the coq/Gen/Sites.v generated from the old source: mask MU_WZERO_TO_ACQUIRE|MU_SPINLOCK, which contains MU_LONG_WAIT).
 
-   One step = one atomic site of the C code (or one condition evaluation, or one abstract
-   semaphore operation) followed by the thread-local work up to the next such point.
-   Every value written to the mutex word comes from Gen/Sites.v, every mask from Gen/Consts.v.
-   Waiter records are identified with the thread using them.  The same_condition ring is the
-   pointer structure of the code: scp / scn = same_condition.prev / .next.
-   Site ids: 100*function + ordinal in Gen/Sites.v:
-     1 nsync_mu_lock 2 nsync_mu_rlock 3 nsync_mu_trylock 4 nsync_mu_rtrylock 5 nsync_mu_lock_slow_
-     6 mu_release_spinlock 7 nsync_mu_unlock 8 nsync_mu_runlock 9 nsync_mu_unlock_slow_
-     10 nsync_mu_wait_with_deadline 11 mu_try_acquire_after_timeout_or_cancel
-     12 nsync_mu_unlock_without_wakeup 13 nsync_remove_from_mu_queue_ 14 nsync_spin_test_and_set_
-   No proofs in this file. *)
+   The defect: a timed-out waiter T spins in mu_try_acquire_after_timeout_or_cancel until
+   (word & (MU_WZERO_TO_ACQUIRE|MU_SPINLOCK)) == 0.  If T has meanwhile been WOKEN by an unlocker's scan (it is the thread
+   everybody relies on to take the mutex next) while a long waiter V (woken LONG_WAIT_THRESHOLD = 30 times without getting
+   the lock) has queued itself again with MU_LONG_WAIT -- during the scanner's spinlock-free condition evaluation, so that
+   the scan left V queued -- T never gets in (MU_LONG_WAIT is cleared only by V's acquisition), V is never woken, and every
+   later locker queues behind V: the mutex is dead.  The real library reproduced it (harness scenario longwait_stuck).
+
+   Compile (from /verif/coq):  coqc -Q Base NsyncBase -Q Gen NsyncGen ../docs/F14_witness.v     (about 10 s) *)
 From NsyncBase Require Import CSem.
 From NsyncGen Require Import Consts Sites.
 From Coq Require Import List ZArith Bool.
 Import ListNotations.
 Local Open Scope Z_scope.
 
+(* the guard generated from the old source *)
+Definition old_mt_cas1_guard (old_word : Z) : bool := (negb (negb ((wrap_u 32 (Z.land old_word (wrap_u 32 (Z.lor (wrap_u 32 (Z.lor (wrap_u 32 (Z.lor (wrap_u 32 (wrap_s 32 (Z.shiftl (1) (0)))) (4294967295 - (wrap_u 32 ((wrap_u 32 (wrap_s 32 (Z.shiftl (1) (8)))) - (wrap_u 32 (1))))))) (wrap_u 32 (wrap_s 32 (Z.shiftl (1) (6)))))) (wrap_u 32 (wrap_s 32 (Z.shiftl (1) (1)))))))) =? (wrap_u 32 (0))))).
+
+Module OldModel.
 Inductive mode := W | R.
 Definition mode_eqb (a b : mode) := match a, b with W, W | R, R => true | _, _ => false end.
 
@@ -750,7 +750,7 @@ Definition step_thr (w0 : world) (t : nat) (c : choice) : world * ev :=
   | MtLoad first =>
       let old := word w in
       let site := if first then 1101 else 1104 in
-      if mu_try_acquire_after_timeout_or_cancel_cas1_guard old then (set_pc w t (MtCas1 old), EvLoad site old)
+      if old_mt_cas1_guard old then (set_pc w t (MtCas1 old), EvLoad site old)
       else if mu_try_acquire_after_timeout_or_cancel_cas2_guard old then (set_pc w t (MtCas2 old), EvLoad site old)
       else (set_pc w t (MtLoad false), EvLoad site old)
   | MtCas1 old =>
@@ -797,3 +797,66 @@ Definition init (progs : list (list op)) (cl : nat -> nat) (clock0 : Z) : world 
        (map (fun p => mk_t Idle p None false false None None) progs).
 
 Definition run (w : world) (sched : list actor) : world := fold_left (fun w a => fst (step w a)) sched w.
+
+End OldModel.
+
+Import OldModel.
+
+(* V = thread 0 (the victim: a reader that becomes the long waiter), R2 = 1 (a second reader), B = 2 (the barger),
+   T = 3 (the timed waiter), S = 4 (makes T's condition true; its unlock scans and wakes T) *)
+Definition f14_progs : list (list op) :=
+  [[OLock R; OUnlock]; [OLock R; OUnlock]; concat (repeat [OLock W; OUnlock] 30);
+   [OLock W; OMuWait (Some (0%nat, 0%nat)) false (Some 1) false; OUnlock];
+   [OLock W; OSetCond 0 0 true; OUnlock]].
+Definition T (t : nat) : actor := Thr t CNormal.
+Definition f14_sched : list actor :=
+  repeat (T 3) 10 ++                       (* T locks, waits (condition false), releases, sleeps *)
+  repeat (T 2) 3 ++                        (* B locks *)
+  repeat (T 0) 8 ++                        (* V: rlock -> queues itself, sleeps *)
+  concat (repeat (repeat (T 2) 18 ++       (* 29 rounds: B unlocks (its scan wakes V), B locks again (barges), *)
+                  repeat (T 0) 8) 29) ++   (*            V wakes up, finds the mutex held, queues itself again, sleeps *)
+  repeat (T 1) 8 ++                        (* R2: rlock -> queues itself, sleeps *)
+  repeat (T 2) 19 ++                       (* B's last unlock: the scan wakes V and R2 (MU_DESIG_WAKER set) *)
+  repeat (T 1) 7 ++                        (* R2 gets in (clears MU_DESIG_WAKER) and out *)
+  repeat (T 0) 2 ++                        (* V: its 30th wake-up: it now carries MU_LONG_WAIT; it has not looked at the word yet *)
+  repeat (T 4) 10 ++                       (* S locks, makes T's condition true, unlocks: scanning, spinlock released, about to evaluate *)
+  [Tick 1; Thr 3 CTimeout] ++ repeat (T 3) 3 ++   (* T times out, finds waiting still set, spins (sets MU_WRITER_WAITING) *)
+  repeat (T 0) 6 ++                        (* V finds the mutex held by the scanner, queues itself with MU_LONG_WAIT, sleeps *)
+  repeat (T 4) 9 ++                        (* S: T's condition is true: removes T, finishes the scan (V stays queued), releases, wakes T *)
+  repeat (T 3) 6.                          (* T spins: the word no longer changes *)
+Definition f14_w : world := run (init f14_progs (fun x => x) 0) f14_sched.
+
+Theorem F14_final_state :
+  word f14_w = 116 /\                                         (* MU_WAITING|MU_CONDITION|MU_WRITER_WAITING|MU_LONG_WAIT: no lock bits *)
+  queue f14_w = [0%nat] /\
+  map t_pc (thr f14_w) = [LsSemP R (mk_lsl 1 8 64 30); Idle; Idle; MtLoad false; Idle] /\
+  map held (thr f14_w) = [None; None; None; None; None] /\
+  map t_ops (thr f14_w) = [[OUnlock]; []; []; [OUnlock]; []] /\
+  waiting f14_w 0%nat = true /\ sem f14_w 0%nat = 0 /\      (* V asleep, on the queue *)
+  waiting f14_w 3%nat = false /\ sem f14_w 3%nat = 1 /\     (* T has been woken and posted *)
+  pst f14_w 0%nat 0%nat = true.                               (* and its condition is true *)
+Proof. vm_compute. repeat split; reflexivity. Qed.
+
+(* nothing can move any more: every step of every thread, under every choice, leaves the world as it is *)
+Theorem F14_dead : forall t c, fst (step f14_w (Thr t c)) = f14_w.
+Proof.
+  assert (L : length (thr f14_w) = 5%nat) by (vm_compute; reflexivity).
+  intros t c. destruct (Nat.lt_ge_cases t 5) as [Lt|Ge].
+  - destruct t as [|[|[|[|[|k]]]]]; [| | | | |exfalso; do 5 apply Nat.succ_lt_mono in Lt; inversion Lt];
+      destruct c; vm_compute; reflexivity.
+  - cbn [step]. assert (G : get f14_w t = dflt_t) by (unfold get; apply nth_overflow; rewrite L; exact Ge).
+    assert (B : begin_op f14_w t = f14_w) by (unfold begin_op; rewrite G; reflexivity).
+    unfold step_thr. rewrite B. cbv zeta. rewrite G. reflexivity.
+Qed.
+
+(* ... and a fresh locker can only queue itself behind V: with MU_LONG_WAIT set neither the fast path nor the slow path of
+   nsync_mu_lock / nsync_mu_rlock / trylock acquires *)
+Theorem F14_fresh_lockers_queue : forall m,
+  fast_guard2 m (word f14_w) = false /\ try_guard2 m (word f14_w) = false /\
+  nsync_mu_lock_slow_cas1_guard (word f14_w) (lt_zero_to_acquire (lt_of m)) = false /\
+  nsync_mu_lock_slow_cas2_guard (word f14_w) (lt_zero_to_acquire (lt_of m)) = true.
+Proof. intros [|]; vm_compute; repeat split; reflexivity. Qed.
+
+Print Assumptions F14_final_state.
+Print Assumptions F14_dead.
+Print Assumptions F14_fresh_lockers_queue.
